@@ -4,6 +4,7 @@
  * a crash- artifact.  Statistics are written to $PNC_OPEN_STATS (JSON) every 2048 inputs and
  * at exit. */
 #include "open_target.h"
+#include <signal.h>
 
 static struct stats fz_stats;
 static const char *fz_stats_path;
@@ -25,6 +26,10 @@ static void fz_write_stats(void)
 int LLVMFuzzerInitialize(int *argc, char ***argv)
 {
     MPI_Init(argc, argv);
+    /* OpenMPI installs a backtrace handler for SIGABRT (opal_signal); libFuzzer does not replace an existing handler, so
+     * abort() of an oracle failure would end the process without a crash- artifact.  Give SIGABRT back before libFuzzer
+     * sets its handlers (it does that after LLVMFuzzerInitialize).  SEGV/BUS/FPE already belong to ASan. */
+    signal(SIGABRT, SIG_DFL);
     pnc_target_init();
     fz_stats_path = getenv("PNC_OPEN_STATS");
     atexit(fz_write_stats);
